@@ -158,6 +158,9 @@ def gen_case(rng):
             return {"cls": "addr", "lit": a[:10] + rng.choice("018a=") + a[11:], "mut": "alphabet"}
         if m < .42:
             return {"cls": "addr", "lit": a + "A", "mut": "length"}
+        if m < .5:
+            # base32 padding / whitespace around a well-formed address: not an address literal any more
+            return {"cls": "addr", "lit": rng.choice([a + "======", a + "=", a + "========", a + " ", " " + a, a + "\n", a.lower()]), "mut": "padding"}
         return {"cls": "addr", "lit": a, "mut": None}
     if k < .96:
         base = rng.choice(["f()void", "add(uint64,uint64)uint64", "g((uint64,bool),string[])byte[]", "x", "a b", "a\tb", "q//r",
